@@ -10,6 +10,7 @@ import (
 	"runtime"
 	"strings"
 	"sync"
+	"syscall"
 	"time"
 
 	"github.com/lni/dragonboat/v4/verifsim/choice"
@@ -100,8 +101,15 @@ func parallelShrink(path string, budget time.Duration) {
 	}
 	var evs []*evaluator
 	for i := 0; i < n; i++ {
-		cmd := exec.Command(SimBinary(), "evalserver", path)
+		bin := SimBinary()
+		if realTimeOnly([]string{"evalserver", path}) {
+			if p, err := os.Executable(); err == nil {
+				bin = p
+			}
+		}
+		cmd := exec.Command(bin, "evalserver", path)
 		cmd.Env = append(os.Environ(), "GOMAXPROCS=1")
+		cmd.SysProcAttr = &syscall.SysProcAttr{Pdeathsig: syscall.SIGKILL}
 		in, err1 := cmd.StdinPipe()
 		out, err2 := cmd.StdoutPipe()
 		if err1 != nil || err2 != nil || cmd.Start() != nil {
